@@ -793,6 +793,8 @@ fn main() {
         let s = format!("{:?}", zp);
         let leaks = s.contains(&Needles::dec_list(&sib[0][..4])) && s.contains("positions: [2]");
         out.note("observation", &format!("wormhole_circuit::zk_merkle_proof::ZkMerkleProof (re-export of zk_circuits_common::zk_merkle::ZkMerkleProof, #[derive(Debug)]) prints siblings and positions: {}", leaks));
+        let tj = zk_circuits_common::circuit::TransferProofJson { transfer_count: 987654321012, state_root: "00".into(), storage_proof: vec!["abcd".into()], indices: vec![0] };
+        out.note("observation", &format!("zk_circuits_common::circuit::TransferProofJson (#[derive(Debug)], a JSON loading DTO) prints transfer_count: {}", format!("{:?}", tj).contains("987654321012")));
     }
 
     out.note("renderings", &renderings.to_string());
